@@ -625,34 +625,32 @@ func (rw *rewriter) splitWrite(c *astutil.Cursor, st ast.Stmt, lhs ast.Expr, tok
 	rd := func() ast.Expr {
 		return &ast.ParenExpr{X: &ast.StarExpr{X: call(rw.shim("vsched", "R"), &ast.UnaryExpr{Op: token.AND, X: wi.target}, str(wi.name))}}
 	}
-	var val ast.Expr
+	// the temporary takes its type from the location itself (an unmonitored copy that is
+	// overwritten at once), so untyped constants, nil, shifts and conversions on the right keep
+	// the typing context they had
+	tmp := id(rw.fresh("vtmp"))
+	var init ast.Expr = wi.target
+	var mid ast.Stmt
 	switch {
 	case tok == token.ASSIGN:
 		tv := rw.rhsType[st]
-		if tv.Type == nil || tv.Value != nil || tv.IsNil() {
-			return
+		if tv.Value != nil || tv.IsNil() {
+			return // nothing is read on the right-hand side
 		}
-		if b, ok := tv.Type.(*types.Basic); ok && b.Info()&types.IsUntyped != 0 {
-			return
-		}
-		if _, tuple := tv.Type.(*types.Tuple); tuple {
-			return
-		}
-		val = rhs
-	case tok == token.INC:
-		val = &ast.BinaryExpr{X: rd(), Op: token.ADD, Y: &ast.BasicLit{Kind: token.INT, Value: "1"}}
-	case tok == token.DEC:
-		val = &ast.BinaryExpr{X: rd(), Op: token.SUB, Y: &ast.BasicLit{Kind: token.INT, Value: "1"}}
+		mid = &ast.AssignStmt{Lhs: []ast.Expr{tmp}, Tok: token.ASSIGN, Rhs: []ast.Expr{rhs}}
+	case tok == token.INC || tok == token.DEC:
+		init = rd()
+		mid = &ast.IncDecStmt{X: tmp, Tok: tok}
 	default:
-		op, ok := opOfAssign[tok]
-		if !ok {
+		if _, ok := opOfAssign[tok]; !ok {
 			return
 		}
-		val = &ast.BinaryExpr{X: rd(), Op: op, Y: &ast.ParenExpr{X: rhs}}
+		init = rd()
+		mid = &ast.AssignStmt{Lhs: []ast.Expr{tmp}, Tok: tok, Rhs: []ast.Expr{rhs}}
 	}
-	tmp := id(rw.fresh("vtmp"))
 	c.Replace(&ast.BlockStmt{List: []ast.Stmt{
-		&ast.AssignStmt{Lhs: []ast.Expr{tmp}, Tok: token.DEFINE, Rhs: []ast.Expr{val}},
+		&ast.AssignStmt{Lhs: []ast.Expr{tmp}, Tok: token.DEFINE, Rhs: []ast.Expr{init}},
+		mid,
 		&ast.AssignStmt{Lhs: []ast.Expr{lhs}, Tok: token.ASSIGN, Rhs: []ast.Expr{tmp}},
 	}})
 }
